@@ -14,6 +14,10 @@ Families
           state, and its mutations (last char dropped, first char dropped, "_" appended,
           case flipped, blank prepended/appended, empty) through every by-name lookup
           (names of a later library must be unknown before and known after its load).
+  first   for EVERY interface function f x {one library, two requested together, a second
+          requested after a sync} x {request_database, request_module}: fresh process, the
+          request(s), f as the very FIRST query, then the whole battery; every answer must
+          equal the answer of the same call in a process that forced the load first.
   uniq    module definitions with sorted unique-name tables of every size 0..n, two modules
           in both registration orders: every present key, an absent key in every gap,
           strings of every length 0..5, known library hash + unknown wrapper hash, ...
@@ -61,6 +65,8 @@ def make_files(ck, br, thorough):
     files["l3"] = real("l3", lib_c20.rich_header("L3_", base="L2_Derived",
                                                  includes=["l1.h", "l2.h"]),
                        ["-python", "-fnames"])
+    files["fq1"] = real("fq1", small_header("Q1_"), ["-c", "-fnames"])
+    files["fq2"] = real("fq2", small_header("Q2_"), ["-python-native"])
     syn = os.path.join(d, "syn.in")
     with open(syn, "wb") as f:
         f.write(idb.write(lib_c20.synthetic_db()))
@@ -573,6 +579,200 @@ def run_fptr(cx, n1, f1, n2, f2):
                 confirm=cx.confirm_value(pre, call, lambda v, val=val: v == val))
 
 
+
+# first query -----------------------------------------------------------------
+def small_header(P):
+    return """
+/// doc
+class %(P)sA {
+__published:
+  %(P)sA();
+  virtual ~%(P)sA();
+  int get_v() const;
+  void set_v(int v);
+  __make_property(v, get_v, set_v);
+  int get_num_w() const;
+  int get_w(int n) const;
+  __make_seq(get_ws, get_num_w, get_w);
+  enum E { e_a, e_b = 4 };
+  class N { __published: N(); int q; };
+  operator int () const;
+  int f;
+};
+class %(P)sB : public %(P)sA {
+__published:
+  %(P)sB(int a, const char *s = "x");
+};
+__begin_publish
+int %(P)sfree(const char *s);
+extern int %(P)sglobal;
+#define %(P)sLIMIT 10
+__end_publish
+""" % {"P": P}
+
+
+def first_query_sets(files, thorough):
+    """(name, request ops with {req} to be replaced by load / loadid, reference ops)"""
+    a, b = (files["fq1"], files["fq2"]) if not thorough else (files["l1"], files["l2"])
+    def rq(p, kind):
+        return "load:" + p if kind == "database" else "loadid:%s:0" % p
+    out = []
+    for kind in ("database", "module"):
+        out.append(("one", kind, [rq(a, kind)], [rq(a, kind), "sync"]))
+        out.append(("two-together", kind, [rq(a, kind), rq(b, kind)], [rq(a, kind), rq(b, kind), "sync"]))
+        out.append(("second-after-sync", kind, [rq(a, kind), "sync", rq(b, kind)],
+                    [rq(a, kind), "sync", rq(b, kind), "sync"]))
+    return out
+
+
+def run_first_query_set(cx, setname, kind, reqs, refops, only_fn=None):
+    """For EVERY interface function f: fresh process, the request(s), f as the very first
+    query, then the whole battery.  Every answer must equal the answer of the same call in
+    a reference process that forced the load first, and counts must match accessors."""
+    ck = cx.ck
+    # reference: dump (for the domain), then the battery after a forced sync
+    r, vals = tools.idb(cx.ba, refops + ["dump"], timeout=120)
+    dumps = [v for v in vals if "types" in v]
+    if r.rc != 0 or not dumps:
+        raise HarnessError("idbdump failed on %s/%s: %s" % (setname, kind, r.brief()))
+    dump = dumps[-1]
+    if dump["error"] or dump["pending_requests"]:
+        raise HarnessError("reference load of %s/%s did not complete" % (setname, kind))
+    sweep = "sweep:-2:%d:%d" % (dump["next_index"] + 2, max_count(dump) + 1)
+    # one representative string argument per string function
+    sargs = {}
+    for p in cx.protos:
+        if p["shape"] != "s":
+            continue
+        f = p["name"]
+        if f in lib_c20.NAME_LOOKUPS:
+            k, fld = lib_c20.NAME_LOOKUPS[f]
+            stored = sorted(r_[fld] for i, r_ in sorted(dump[k].items(), key=lambda kv: int(kv[0])) if r_[fld])
+            sargs[f] = stored[-1] if stored else "x"
+        elif f == UNIQ:
+            sargs[f] = "abcdefgh"
+        else:
+            sargs[f] = "some/dir"
+    nfile = os.path.join(ck.scratch("names"), "first-%s-%s.txt" % (setname, kind))
+    write_names(nfile, sorted(sargs.items()))
+    ref = lib_c20.run(cx.ba, cx.exe, refops + [sweep, "names:" + nfile], timeout=600)
+    if ref.r.timeout or ref.r.rc != 0 or any(g[2] != 0 for g in ref.G):
+        raise HarnessError("reference battery failed on %s/%s: %s" % (setname, kind, ref.r.brief()))
+    sweep1 = sweep.replace("sweep:", "sweep1:")
+
+    def after_last_sync(out):
+        i = out.rfind("\nS\t")
+        return out[out.index("\n", i + 1) + 1:]
+    ref_text = {sweep: after_last_sync("\n" + ref.r.out)}
+    if cx.ck.tier != "thorough":
+        r1 = lib_c20.run(cx.ba, cx.exe, refops + [sweep1, "names:" + nfile], timeout=600)
+        if r1.r.timeout or r1.r.rc != 0:
+            raise HarnessError("reference battery failed on %s/%s: %s" % (setname, kind, r1.r.brief()))
+        ref_text[sweep1] = after_last_sync("\n" + r1.r.out)
+    # the reference itself must satisfy count == entries
+    for cf, af in lib_c20.Model.ENUM_PAIRS:
+        c = ref.R.get((len(ref.S), cf, 0, 0))
+        nz = sorted(a for (st, f2, a, b), v in ref.R.items() if f2 == af and v[1] != 0)
+        if c is None or nz != list(range(c[1])):
+            raise HarnessError("reference run violates count == entries for %s" % cf)
+    refR = {k[1:]: v for k, v in ref.R.items()}
+    refN = {(f, hx): v for st, f, hx, v in ref.N}
+    model = lib_c20.Model(dump, cx.flags, cx.protos)
+    cx.calls += ref.ncalls
+
+    def first_call(p):
+        f = p["name"]
+        if p["shape"] == "s":
+            return "calls:%s:%s" % (f, lib_c20.hexs(sargs[f])), refN[(f, lib_c20.hexs(sargs[f]))]
+        # a valid argument of the LAST requested library: the non-neutral answer with the
+        # greatest index (index assignment is deterministic for a given load order)
+        best = None
+        for (f2, a, b), v in refR.items():
+            if f2 == f and abs(a) < 2 ** 30 and abs(b) < 2 ** 30 and not model.is_neutral(f, v):
+                if best is None or (a, -b) > (best[0], -best[1]):
+                    best = (a, b)
+        a, b = best or (1, 0)
+        if len(p["shape"]) < 2:
+            b = 0
+        if len(p["shape"]) < 1:
+            a = 0
+        return "call:%s:%d:%d" % (f, a, b), refR[(f, a, b)]
+
+    def one(p):
+        if p is None:
+            # no first query in the driver: every function's forked child is itself the
+            # first query after the request(s)
+            f, key, call, want = "(each function in its own child)", "first/%s/%s/each" % (setname, kind), None, None
+            sw = sweep
+            ops = list(reqs) + [sw, "names:" + nfile]
+        else:
+            f = p["name"]
+            key = "first/%s/%s/%s" % (setname, kind, f)
+            call, want = first_call(p)
+            sw = sweep if cx.ck.tier == "thorough" else sweep1
+            ops = list(reqs) + [call, sw, "names:" + nfile]
+
+        def run():
+            res = lib_c20.run(cx.ba, cx.exe, ops, timeout=600, parse=False)
+            if res.r.timeout or res.r.rc != 0:
+                return res, "crash", "%s as the first query after the request: %s; %s" % (
+                    call, "timeout" if res.r.timeout else status_text(res.r.rc), (res.r.err or "")[-300:])
+            out = res.r.out or ""
+            if reqs[-1] != "sync" and "sync" in reqs:
+                out = after_last_sync("\n" + out)
+            if call is None:
+                got, rest = want, out
+            else:
+                first, _, rest = out.partition("\n")
+                first = first.split("\t")
+                if first[0] not in ("R", "N") or first[1] != f:
+                    return res, "no-answer", "no answer recorded for the first query %s" % call
+                got = lib_c20._val(first[-1])
+            if got != want:
+                return res, "first-differs", ("%s as the FIRST query after the request answers %r; the same "
+                                              "call after a forced load answers %r" % (call, got[1], want[1]))
+            if rest == ref_text[sw]:
+                return res, "same", None
+            # slow path: find the difference
+            lib_c20.parse_output(out, res)
+            for g in res.G:
+                if g[2] != 0:
+                    return res, "crash", "%s dies in the battery after first query %s: %s" % (
+                        g[1], call, status_text(g[2]))
+            R = {k[1:]: v for k, v in res.R.items()}
+            for k2 in sorted(refR):
+                if R.get(k2) != refR[k2]:
+                    return res, "battery-differs", (
+                        "after first query %s, %s%r answers %r; with the load forced first it answers %r"
+                        % (call, k2[0], k2[1:], (R.get(k2) or (None, None))[1], refR[k2][1]))
+            for st, f2, hx, v in res.N:
+                if refN.get((f2, hx)) != v:
+                    return res, "battery-differs", (
+                        "after first query %s, %s(%r) answers %r; with the load forced first it answers %r"
+                        % (call, f2, bytes.fromhex(hx).decode("latin-1"), v[1], refN.get((f2, hx), (None, None))[1]))
+            for cf, af in lib_c20.Model.ENUM_PAIRS:
+                c = R.get((cf, 0, 0))
+                nz = sorted(a for (f2, a, b), v in R.items() if f2 == af and v[1] != 0)
+                if c is not None and nz != list(range(c[1])):
+                    return res, "count-differs", "%s() = %d but %s returns entries at %s" % (cf, c[1], af, nz[:12])
+            return res, "same", None
+        res, outcome, prob = run()
+        ncalls = (res.r.out or "").count("\nR\t") + (res.r.out or "").count("\nN\t")
+        cx.calls += ncalls
+        ck.note(key, nontrivial=p is None or not model.is_neutral(f, want) or p["rk"] == "v", outcome=outcome,
+                family="first-query", transitions=max(1, ncalls),
+                sample={"set": setname, "request": kind, "first_query": call, "reference_answer": want[1] if want else None,
+                        "battery_calls": ncalls})
+        if prob:
+            cx.fail(key, "[%s, request_%s] %s" % (setname, kind, prob),
+                    {"observed": outcome + ": " + prob[:120], "ops": sub_paths(ops, cx.files)},
+                    confirm=lambda: run()[2] is not None)
+    jobs = [None] + list(cx.protos)
+    if only_fn is not None:
+        jobs = [None] if only_fn == "each" else [p for p in cx.protos if p["name"] == only_fn]
+    pmap(one, jobs)
+
+
 # ------------------------------------------------------------------------ main
 def main():
     ck = Check(PID)
@@ -583,6 +783,7 @@ def main():
     flags = lib_c20.read_flags(ba["repo"])
     cx = Ctx(ck, ba, exe, protos, flags)
     files = make_files(ck, br, thorough)
+    cx.files = files
     if ck.replay:
         return replay(cx, files)
 
@@ -607,6 +808,13 @@ def main():
                         empty.append("%s.%s" % (kind, f))
         if empty:
             raise HarnessError("generated header leaves vectors empty: %s" % empty)
+    if want("first") and not ck.expired():
+        for setname, kind, reqs, refops in first_query_sets(files, thorough):
+            if ck.expired():
+                ck.cap("first-query family cut by the deadline before %s/%s" % (setname, kind))
+                break
+            run_first_query_set(cx, setname, kind, reqs, refops)
+            states += len(protos) + 1
     nmax = 12 if thorough else 6
     if want("uniq") and not ck.expired():
         jobs = [(n, order, False) for n in range(nmax + 1) for order in ("AB", "BA")]
@@ -633,7 +841,7 @@ def main():
              "on one module-table state, or one two-module fptr history; non-trivial = the "
              "function saw an index naming a record (non-neutral answer) AND one naming none / "
              "a lookup function found one name and missed another / a table of size >= 1 / a "
-             "pointer was actually returned",
+             "pointer was actually returned / the first query has a non-neutral reference answer",
         exhaustive=True, states=states, min_nontrivial=50,
         bound="indices [-2,next_index+2]+{INT_MIN,INT_MAX}; positions [-1,maxcount+1]+extremes; "
               "unique tables 0..%d x 2 orders; fptr (n1,f1,n2,f2) in 0..%d"
@@ -646,6 +854,15 @@ def main():
 def replay(cx, files):
     rp = cx.ck.load_replay()
     d = rp["detail"] or {}
+    if rp["key"].startswith("first/"):
+        _, setname, kind, fn = rp["key"].split("/")
+        for sn, k, reqs, refops in first_query_sets(files, rp.get("tier") == "thorough"):
+            if (sn, k) == (setname, kind):
+                run_first_query_set(cx, sn, k, reqs, refops, only_fn=fn)
+        print("recorded:", rp["what"])
+        print("observed now:", [v["what"] for v in cx.ck.violations] or "same answers as the reference process")
+        cx.ck.cleanup()
+        return 1 if cx.ck.violations else 0
     if "call" not in d:
         print("replay file holds no single call:", rp.get("what"))
         cx.ck.cleanup()
